@@ -12,6 +12,13 @@ import GaeaVerif.Model.SpecC22
       flag = checkExecuteFromSlave, e2e = route of doQuery:
       (conn master|slave FLAG) | (local FLAG) | (failed FLAG) | unmodelled
     s <request> <implementation output>   property oracle
+
+  Multi-statement packets (the real handleQuery -> doMultiStmts path):
+    m (rwm (user …) (csl …) (sess …) (slice …) (pieces (TYPE SQL) (TYPE SQL) …))
+    answer (multi (p TYPE WHERE) …)   WHERE master|slave|local|failed|unmodelled, ending with the
+    first failed / unmodelled piece.  Oracle: every piece served by a replica must be allowed
+    there (outside a transaction; a plain read of a read/write-split user: no write, no locking
+    read, no master hint, no read_only probe).
 -/
 namespace GaeaVerif.Drv.C22
 open GaeaVerif GaeaVerif.Tok GaeaVerif.FastPath GaeaVerif.RwSplit
@@ -95,14 +102,83 @@ def oracle (req out : Sexp) : String :=
       | _, _ => "viol unparsable"
     | _ => "viol unparsable"
 
+/-! ### multi-statement packets -/
+
+structure MultiInput where
+  base : Input
+  pieces : List (Nat × Str)
+
+def parsePiece : Sexp → Option (Nat × Str)
+  | .list [st, sql] =>
+    match st.asNat?, sql.asText? with
+    | some st, some sql => some (st, sql.toList)
+    | _, _ => none
+  | _ => none
+
+def parseMulti (req : Sexp) : Option MultiInput :=
+  match req with
+  | .list [.atom "rwm", u, csl, ss, sl, .list (.atom "pieces" :: ps)] =>
+    match parseInput (.list [.atom "rw", u, csl, ss, sl, .list [.atom "stmt", .atom "0", .atom "-"]]), ps.mapM parsePiece with
+    | some i, some ps => some { base := i, pieces := ps }
+    | _, _ => none
+  | _ => none
+
+def whereStr : Where → String
+  | .master => "master" | .slave => "slave" | .local => "local" | .failed => "failed" | .unmodelled => "unmodelled"
+
+def modelMulti (req : Sexp) : String :=
+  match parseMulti req with
+  | none => "bad"
+  | some m =>
+    let ws := doMulti m.base.cfg m.base.sess m.base.slice "db_a".toList false m.pieces
+    let parts := (ws.zip m.pieces).map fun (w, p) => s!" (p {p.1} {whereStr w})"
+    "(multi" ++ String.join parts ++ ")"
+
+/-- The property on an observed multi-statement outcome: a piece served by a replica must be allowed there. -/
+def oracleMulti (req out : Sexp) : String :=
+  match parseMulti req with
+  | none => "bad"
+  | some m =>
+    match out with
+    | .atom "panic" => "viol tokenize-panic"
+    | .list (.atom "multi" :: ps) =>
+      let lockDemanded := m.base.force != "off"
+      let rec go : List Sexp → List (Nat × Str) → String
+        | .list [.atom "p", st, .atom node] :: rest, (_, sql) :: pieces =>
+          match st.asNat? with
+          | none => "viol unparsable"
+          | some st =>
+            if node == "slave" then
+              if m.base.sess.isInTransaction then "viol in-transaction-on-replica"
+              else
+                match Spec.replicaVerdict m.base.cfg lockDemanded st sql with
+                | some cls => "viol multi-statement-" ++ cls
+                | none => go rest pieces
+            else if node == "master" || node == "local" || node == "failed" || node == "unmodelled" then go rest pieces
+            else "viol unparsable"
+        | [], _ => "ok"
+        | _, _ => "viol unparsable"
+      go ps m.pieces
+    | _ => "viol unparsable"
+
+def isMulti : Sexp → Bool
+  | .list (.atom "rwm" :: _) => true
+  | _ => false
+
 def handle (args : List Sexp) : String :=
   match args with
   | [.atom "m", req] =>
+    if isMulti req then
+      let out := modelMulti req
+      match Sexp.parseLine out with
+      | some [o] => out ++ " | " ++ oracleMulti req o
+      | _ => out
+    else
     let out := model req
     match Sexp.parseLine out with
     | some [o] => out ++ " | " ++ oracle req o
     | _ => out
-  | [.atom "s", req, out] => oracle req out
+  | [.atom "s", req, out] => if isMulti req then oracleMulti req out else oracle req out
   | _ => "bad-request"
 
 end GaeaVerif.Drv.C22
